@@ -40,7 +40,7 @@ ESSENTIAL = {
     "OrcaLin": [r"^ret:res\."],                        # level A: replies (hcall events are level B, drift only)
     "ConnTrace": [r"^x:units", r"^x:stray$"],
     "LifecycleTrace": [r"^prefix:(open_l1|open_l2|gor|fresh_ok|accepting)$"],
-    "WireTrace": [r"^decode:variants\.#\.got\.(op|quiet\.#|klens\.#|flags|exp)$", r"^mal:alive$"],
+    "WireTrace": [r"^decode:variants\.#\.got\.(op|quiet\.#)$", r"^mal:alive$"],   # klens/flags are redundant or unused for some requests
     "ChunkGeomTrace": [r"^set:reqs\.#\.(vl|kl|t)$", r"^set:meta\.n$"],
     "KetamaTrace": [r"^route:"],
     "walk2": [r"^\w*:out", r"^\w*:l2n\.k\d\.(v\.#|f)$"],     # two tiers: reply and the authoritative tier (L1 vs the model is drift)
@@ -294,7 +294,10 @@ def main():
         r["by_field"] = {k: {"tried": v[0], "rejected": v[1]} for k, v in sorted(by.items())}
         r["never_noticed"] = sorted(k for k, v in by.items() if v[1] == 0)
         ess = ESSENTIAL.get(r["module"], []) + ESSENTIAL_BY_PROP.get((r["case"].split("-")[0], r["module"]), [])
-        missed = [m["what"] for m in muts if not m["rejected"] and any(re.search(x, m["field"]) for x in ess)]
+        # under faults (C10) and pooled retries (C13) an error / closed / timed-out reply is always admissible
+        lenient = r["case"].split("-")[0] in ("C10", "C13")
+        missed = [m["what"] for m in muts if not m["rejected"] and any(re.search(x, m["field"]) for x in ess)
+                  and not (lenient and re.search(r"-> '(error|closed|timeout)'$", m["what"]))]
         r["essential_missed"] = missed
         tot, rej = len(muts), sum(1 for m in muts if m["rejected"])
         summary.append("%-34s %-16s events=%-5d corruptions=%-3d rejected=%-3d never noticed: %s%s" % (
